@@ -86,6 +86,11 @@ Leaves == {
   E(DurL(NsOf("1w")), <<Dur("1w")>>, FALSE, TRUE),
   E(DurL(NsOf("1h30m")), <<Dur("1h30m")>>, FALSE, TRUE),
   E(DurL("-5000000000"), <<P("-"), DurT("5s")>>, FALSE, TRUE),
+  \* compound durations whose later components use every unit spelling (the micro sign is not an ASCII letter)
+  E(DurL("1500000"), <<Dur("1ms500{MICRO}")>>, FALSE, TRUE),
+  E(DurL("2000250000"), <<Dur("2s250{MICRO}")>>, FALSE, TRUE),
+  E(DurL("33000000"), <<Dur("30ms3000u")>>, FALSE, TRUE),
+  E(DurL("788645006007008"), <<Dur("1w2d3h4m5s6ms7u8ns")>>, FALSE, TRUE),
   E(Wild(""), <<P("*")>>, FALSE, TRUE),
   E(Wild("FIELD"), <<P("*"), PT("::"), KwT("field")>>, FALSE, TRUE),
   E(Wild("TAG"), <<P("*"), PT("::"), KwT("TAG")>>, FALSE, TRUE),
@@ -95,6 +100,11 @@ Leaves == {
   E(Bin("*", IntL("-1"), Call("f", <<Ref("v")>>)), <<P("-"), IdT("f"), PT("("), IdT("v"), PT(")")>>, TRUE, TRUE),
   E(Paren(Ref("v")), <<P("("), IdT("v"), PT(")")>>, FALSE, TRUE),
   E(Paren(Paren(IntL("1"))), <<P("("), PT("("), IntT("1"), PT(")"), PT(")")>>, FALSE, TRUE),
+  \* calls that occur only inside parentheses (the statement is still not a raw query)
+  E(Paren(Call("mean", <<Ref("v")>>)), <<P("("), IdT("mean"), PT("("), IdT("v"), PT(")"), PT(")")>>, TRUE, TRUE),
+  E(Paren(Paren(Call("mean", <<Ref("v")>>))), <<P("("), PT("("), IdT("mean"), PT("("), IdT("v"), PT(")"), PT(")"), PT(")")>>, TRUE, TRUE),
+  E(Bin("-", IntL("1"), Paren(Bin("/", Call("sum", <<Ref("a")>>), Call("sum", <<Ref("b")>>)))),
+    <<Int("1"), P("-"), P("("), IdT("sum"), PT("("), IdT("a"), PT(")"), P("/"), Id("sum"), PT("("), IdT("b"), PT(")"), PT(")")>>, TRUE, TRUE),
   E(Call("now", <<>>), <<Id("now"), PT("("), PT(")")>>, TRUE, TRUE),
   E(Call("mean", <<Ref("v")>>), <<Id("mean"), PT("("), IdT("v"), PT(")")>>, TRUE, TRUE),
   E(Call("mean", <<Ref("v")>>), <<Id("MEAN"), PT("("), P("v"), P(")")>>, TRUE, TRUE),
